@@ -494,12 +494,46 @@ def stepFn (f : List String) : String :=
     if ok then " ".intercalate outs else "bad-op"
   | _ => "bad-op"
 
+/-- `mk <kind> <stor> lhs... = rhs...`: the key / pointer variable K of a place `M[K]` / `*K` is read
+    in phase 1 (before any assignment of the statement), whatever its kind -/
+def stepMk (f : List String) : String :=
+  match f with
+  | kind :: stor :: toks =>
+    if !(["arr", "str", "ifc", "ptr", "deref"].contains kind) || !(["G", "T", "L"].contains stor) then "bad-op" else
+    let lhs := toks.takeWhile (· != "=")
+    let rhs := (toks.drop lhs.length).drop 1
+    if lhs.length != rhs.length || lhs.length < 2 || lhs.length > 4 || toks.length != 2 * lhs.length + 1 then "bad-op" else
+    -- phase 1: every MK place is resolved with the CURRENT key (K = K1 before the statement)
+    let kid0 : Nat := 1
+    let step (acc : Option (Nat × List (Nat × Nat) × Nat)) (p : String × String) : Option (Nat × List (Nat × Nat) × Nat) :=
+      match acc with
+      | none => none
+      | some (kid, m, x) =>
+        let num (r : String) : Option Nat :=
+          match r.toList with
+          | '#' :: ds => if ds.isEmpty || ds.length > 3 then none else (String.ofList ds).toNat?
+          | _ => none
+        match p.1 with
+        | "K" => (match p.2 with
+            | "k1" => some (1, m, x) | "k2" => some (2, m, x) | "k3" => some (3, m, x) | _ => none)
+        | "X" => (num p.2).map fun n => (kid, m, n)
+        | "MK" => (num p.2).map fun n => (kid, (m.filter (·.1 != kid0)) ++ [(kid0, n)], x)
+        | _ => none
+    match (lhs.zip rhs).foldl step (some (kid0, [], 0)) with
+    | none => "bad-op"
+    | some (kid, m, x) =>
+      let get (i : Nat) : Nat := ((m.find? (·.1 == i)).map (·.2)).getD 0
+      let len := if kind == "deref" then 0 else m.length
+      " ".intercalate [toString kid, toString (get 1), toString (get 2), toString (get 3), toString len, toString x]
+  | _ => "bad-op"
+
 def step (s : Unit) (line : String) : Unit × String :=
   match (line.splitOn " ").filter (· != "") with
   | "st" :: rest => (s, stepSt rest)
   | "multi" :: _ => (s, stepMulti line)
   | "seq" :: _ => (s, stepMulti line)
   | "fn" :: rest => (s, stepFn rest)
+  | "mk" :: rest => (s, stepMk rest)
   | [] => (s, "bad-op")
   | _ => (s, "bad-op")
 
